@@ -196,4 +196,56 @@ theorem endblock_rejected_only_on_mismatch (toks : List Tok) (h : parseToks toks
     | nil => simp [hf] at h
     | cons a as => simp [hf] at h
 
+/-! ### non-vacuity: the hypotheses of the theorems are met by concrete chains -/
+
+/-- `[{% block a %}ra{% endblock %}]` -/
+def exRoot : Template := ⟨[.node (.text "["), .node (.block "a" false [.text "ra"]), .node (.text "]")]⟩
+/-- `{% extends 'root' %}{% block a %}M{{ block.super }}{% endblock %}` -/
+def exMid : Template := ⟨[.ext "root", .node (.block "a" false [.text "M", .super])]⟩
+/-- `pre{% extends 'mid' %}junk{% block a %}L{{ block.super }}{% endblock %}` -/
+def exLeaf : Template :=
+  ⟨[.node (.text "pre"), .ext "mid", .node (.text "junk"), .node (.block "a" false [.text "L", .super])]⟩
+def exLoader : Loader := [("leaf", exLeaf), ("mid", exMid), ("root", exRoot)]
+
+example : Linked exLoader [] exLeaf [exLeaf, exMid, exRoot] :=
+  .step [] exLeaf "mid" exMid _ (by decide) (by decide) (by decide) (by simp [exLoader])
+    (.step _ exMid "root" exRoot _ (by decide) (by decide) (by decide) (by simp [exLoader])
+      (.root _ exRoot (by decide) (by decide)))
+
+example : defsOf [exLeaf, exMid, exRoot] "a"
+    = [⟨false, [.text "L", .super]⟩, ⟨false, [.text "M", .super]⟩, ⟨false, [.text "ra"]⟩] := by rfl
+
+/-- the flattening of that chain is `[LMra]`: leaf's definition, its super (mid's), its super (root's) -/
+example : flatten 30 [exLeaf, exMid, exRoot] [] = .ok "[LMra]" := by
+  have h : defsOf [exLeaf, exMid, exRoot] "a"
+      = [⟨false, [.text "L", .super]⟩, ⟨false, [.text "M", .super]⟩, ⟨false, [.text "ra"]⟩] := by rfl
+  unfold flatten
+  generalize defsOf [exLeaf, exMid, exRoot] = res at h
+  simp [rootOf, exRoot, Template.nodes, topsNodes, renderItems_cons, renderItems_nil, renderItem, h, seqOut]
+
+/-- a two-template cycle `a ⇄ b` is a set closed under "parent" (hypothesis of `cycle_raises`) -/
+def exA : Template := ⟨[.ext "b", .node (.block "x" false [])]⟩
+def exB : Template := ⟨[.ext "a"]⟩
+example : ∀ t, (t = exA ∨ t = exB) → ∃ p t', t.exts = [p] ∧ lookup [("a", exA), ("b", exB)] p = some t' ∧
+    (t' = exA ∨ t' = exB) := by
+  intro t ht
+  rcases ht with rfl | rfl
+  · exact ⟨"b", exB, by decide, by simp, Or.inr rfl⟩
+  · exact ⟨"a", exA, by decide, by simp, Or.inl rfl⟩
+
+/-- hypotheses of `required_not_overridden` / `required_raises` -/
+def exReqRoot : Template := ⟨[.node (.block "r" true [])]⟩
+def exReqChild : Template := ⟨[.ext "root", .node (.block "other" false [.text "o"])]⟩
+example : defsOf ([exReqChild] ++ [exReqRoot]) "r" = [⟨true, []⟩] :=
+  required_not_overridden [exReqChild] exReqRoot "r" ⟨true, []⟩ (by decide) (by rfl)
+
+/-- `{% block a %}x{% endblock b %}` : hypothesis of `endblock_mismatch_rejected` -/
+example : parseToks ([.opn "a" false, .text "x"] ++ .cls (some "b") :: []) = .error .inheritance :=
+  endblock_mismatch_rejected [.opn "a" false, .text "x"] [] "b" ⟨[⟨"a", false, [.text "x"]⟩], []⟩
+    ⟨"a", false, [.text "x"]⟩ [] (by rfl) rfl (by decide)
+
+/-- `{% block a %}x{% endblock a %}` parses -/
+example : parseToks [.opn "a" false, .text "x", .cls (some "a")] = .ok [.block "a" false [.text "x"]] := by
+  rfl
+
 end LiquidVerif.C18
